@@ -119,6 +119,11 @@ let parse_op (toks : string list) : op =
   | ["symname"; a; nm] -> OpSymName (n a, h nm)
   | ["symval"; a; v] -> OpSymVal (n a, n v)
   | ["symnum"; a] -> OpSymNum (n a)
+  | ["symnew"; k; sec] -> OpSymNew (n k, n sec)
+  | ["symgetk"; k; idx] -> OpSymGetK (n k, n idx)
+  | ["symnamek"; k; nm] -> OpSymNameK (n k, h nm)
+  | ["symvalk"; k; v] -> OpSymValK (n k, n v)
+  | ["symnumk"; k] -> OpSymNumK (n k)
   | ["arrange"; a; b] -> OpArrange (n a, n b)
   | ["reladd"; a; r; o; sy; ty; ad] -> OpRelAdd (n a, bool_of r, n o, n sy, n ty, n ad)
   | ["reladdi"; a; r; o; inf; ad] -> OpRelAddI (n a, bool_of r, n o, n inf, n ad)
@@ -127,6 +132,12 @@ let parse_op (toks : string list) : op =
   | ["relset"; a; i; o; sy; ty; ad] -> OpRelSet (n a, n i, n o, n sy, n ty, n ad)
   | ["relswap"; a; x; y] -> OpRelSwap (n a, n x, n y)
   | ["relnum"; a] -> OpRelNum (n a)
+  | ["relnew"; k; sec] -> OpRelNew (n k, n sec)
+  | ["reladdk"; k; r; o; sy; ty; ad] -> OpRelAddK (n k, bool_of r, n o, n sy, n ty, n ad)
+  | ["relgetk"; k; i] -> OpRelGetK (n k, n i)
+  | ["relsetk"; k; i; o; sy; ty; ad] -> OpRelSetK (n k, n i, n o, n sy, n ty, n ad)
+  | ["relswapk"; k; x; y] -> OpRelSwapK (n k, n x, n y)
+  | ["relnumk"; k] -> OpRelNumK (n k)
   | ["dynnew"; k; sec] -> OpDynNew (n k, n sec)
   | ["dynnum"; k] -> OpDynNum (n k)
   | ["dynget"; k; i] -> OpDynGet (n k, n i)
